@@ -261,9 +261,9 @@ package signal
 //@   props C16 C06 C07
 //@   mode precise
 //@   pure
-//@   requires low <= high && high <= bv8(64)
-//@   ensures[value: C16 C06 C07] fitsPow2(T, high - low) ==> result == pow2T(T, high - low)
-//@   ensures[nonzero: C05 C06 C07 C16] fitsPow2(T, high - low) ==> result != zero(T)
+//@   requires low <= high && high <= bv8(64) && fitsPow2(T, high - low)
+//@   ensures[value: C16 C06 C07] result == pow2T(T, high - low)
+//@   ensures[nonzero: C05 C06 C07 C16] result != zero(T)
 
 // ---------------------------------------------------------------------------
 // sample-format conversions. K is the per-sample kernel extracted from the
